@@ -442,23 +442,40 @@ ATTR_FIELDS = (("size", "st_size", 4), ("uid", "st_uid", 2), ("gid", "st_gid", 2
                ("atime", "st_atime", 2), ("mtime", "st_mtime", 2))
 
 
-def run_attr_roundtrip(values, ext):
+ATTR_MAKE = ("init", "from_stat")          # how the object to encode is created
+ATTR_SET = ("assign", "update")            # how its extended attributes are set (never touched when there are none)
+ATTR_READ = ("from_msg", "unpack")         # how the object to decode into is created
+
+
+def run_attr_roundtrip(values, ext, make="init", setext="assign", read="from_msg"):
     """values: {"size"/"uid"/...: int | float | None}; ext: list of (key, value) with str or bytes members.
-    Packs with the real _pack, unpacks the bytes with the real _unpack; returns the record of SftpAttr_Trace.tla"""
+    Puts them on a NEW object (SFTPAttributes() or from_stat), packs with the real _pack, unpacks the bytes with the
+    real _unpack into another new object (_from_msg or SFTPAttributes()); returns one block record of SftpAttr_Trace.tla.
+    An object without extended attributes keeps the map it was created with."""
+    import types
     from paramiko.sftp_attr import SFTPAttributes
     Rec = recording_message_class()
-    a = SFTPAttributes()
     abstract, fractional = {}, False
     for name, attr, width in ATTR_FIELDS:
         v = values.get(name)
-        setattr(a, attr, v)
         if v is None:
             abstract[name] = []
         else:
             if not isinstance(v, int):
                 fractional = True
             abstract[name] = [limbs(int(v), width)]
-    a.attr = dict(ext)
+    if make == "from_stat":
+        a = SFTPAttributes.from_stat(types.SimpleNamespace(**{attr: values.get(name) for name, attr, _ in ATTR_FIELDS}))
+    else:
+        a = SFTPAttributes()
+        for name, attr, width in ATTR_FIELDS:
+            setattr(a, attr, values.get(name))
+    if ext:
+        if setext == "update":
+            for k, v in ext:
+                a.attr[k] = v
+        else:
+            a.attr = dict(ext)
     abstract["ext"] = [[as_bytes_list(k), as_bytes_list(v)] for k, v in ext]
     aborted, err = "", None
     w = Rec()
@@ -473,7 +490,10 @@ def run_attr_roundtrip(values, ext):
     if not aborted:
         try:
             with time_limit():
-                d._unpack(r)
+                if read == "from_msg":
+                    d = SFTPAttributes._from_msg(r)
+                else:
+                    d._unpack(r)
         except (Exception, Hang) as e:
             aborted, err = "unpack", repr(e)
     dec = {name: ([] if getattr(d, attr) is None else [limbs(getattr(d, attr), width)]) for name, attr, width in ATTR_FIELDS}
@@ -481,7 +501,13 @@ def run_attr_roundtrip(values, ext):
     return {"attrs": abstract, "fractional": fractional, "flags": limbs(a._flags, 2), "wtoks": w.toks[:64],
             "rflags": limbs(d._flags, 2), "rtoks": r.toks[:64], "dec": dec, "unread": len(r.get_remainder()),
             "aborted": aborted, "error": err,
-            "input": {"values": {k: v for k, v in values.items() if v is not None}, "ext": [[repr(k), repr(v)] for k, v in ext]}}
+            "input": {"values": {k: v for k, v in values.items() if v is not None}, "ext": [[repr(k), repr(v)] for k, v in ext],
+                      "make": make, "setext": setext, "read": read}}
+
+
+def run_attr_sequence(blocks):
+    """blocks: list of (values, ext, make, setext, read); one after the other in this process, every block on new objects"""
+    return {"blocks": [run_attr_roundtrip(*b) for b in blocks]}
 
 
 # ============================================================================ C39  WireCodec
